@@ -171,8 +171,10 @@ func parseCredential(b []byte, p *int, c *CCache, e *binary.ByteOrder) (cred *Cr
 	} else {
 		cred.IsSKey = true
 	}
+	// ticket_flags is a 32-bit integer stored in the byte order of the file. Its most significant bit is bit 0 of the
+	// Kerberos TicketFlags bit string, so the bit string holds the integer in big-endian form whatever the file order is.
 	cred.TicketFlags = types.NewKrbFlags()
-	cred.TicketFlags.Bytes = readBytes(b, p, 4, e)
+	binary.BigEndian.PutUint32(cred.TicketFlags.Bytes, uint32(readInt32(b, p, e)))
 	l := int(readInt32(b, p, e))
 	cred.Addresses = make([]types.HostAddress, l, l)
 	for i := range cred.Addresses {
